@@ -360,7 +360,7 @@ def r17_6(ctx):
 
 def rules(ctx):
     from . import c16
-    return [__import__('vjsx.rules.c10', fromlist=['x']).field_ratchet('inferred runtime types must not depend on what was resolved before'), c16.r16_9, r17_1, r17_2, r17_3, r17_4, r17_5, r17_6, c16.r16_2,
+    return [__import__('vjsx.rules.c10', fromlist=['x']).field_ratchet('inferred runtime types must not depend on what was resolved before'), c16.r16_9, r17_1, r17_2, r17_3, r17_4, r17_5, r17_6, c16.r16_2, c16.r16_12,
             __import__('vjsx.engine', fromlist=['only']).only(c16.r16_1, lambda k: k.startswith('indexed access'), 'the type of `T[K]` is inferred from the member the indexed access selects: the interface and type-literal member tables must select alike (a method member is a Function)')]
 
 
